@@ -8,7 +8,7 @@ CHECKS = {
  "C02": ("bounded symbolic execution (z3) of _find_prototypes/fit; MST cycle-property and Kruskal-uniqueness oracles",
          "for every symmetric weight matrix (all tie patterns, and the all-distinct case) and label pattern with n<=4 / n<=5", "4 C02"),
  "C03": ("bounded symbolic execution (z3) of fit followed by predict on symbolic query distance vectors; exhaustive-minimiser oracle",
-         "end-to-end: every training set with n<=4 / n<=5 and batches of 1-2 queries, both weight branches, supervised and semi-supervised; state-injected: arbitrary forests with n<=5 / n<=6 nodes", "4 C03"),
+         "end-to-end: every training set with n<=4 / n<=5 and batches of 1-2 queries, both weight branches, supervised and semi-supervised; state-injected: arbitrary forests with n<=5 / n<=6 nodes; also on an object that was fitted on other symbolic data and used for one prediction before (n=2 / n<=3)", "4 C03"),
  "C04": ("bounded symbolic execution (z3) of fit+predict(X_train) under tie-free weights; KNN part: symbolic clustering with force_prototype",
          "supervised: n<=4 / n<=5; KNN-supervised: forced clustering from an arbitrary clean graph state (n<=4 / n<=5) and the real fit end to end on a symbolic distance table (n=3 / n<=4)", "4 C04"),
  "C05": ("bounded symbolic execution (z3) of the real Heap: inductive step from an arbitrary invariant-satisfying symbolic state per operation, base case, and bounded operation histories (re-insertion of returned identifiers included) with a ghost multiset",
@@ -26,7 +26,7 @@ CHECKS = {
  "C13": ("bounded symbolic execution (z3) of both _clustering implementations and propagate_labels from an arbitrary clean k-NN graph state (symbolic densities with ties, every neighbour choice)",
          "unit: n<=3 all k, n=4 k=1 (quick) / n=4 k<=3, n=5 k=1 (thorough); end to end: real fit on n=3 (quick) / n<=4 (thorough) symbolic tables", "4 C13"),
  "C14": ("bounded symbolic execution (z3) of KNNSupervisedOPF.predict / UnsupervisedOPF.predict from an injected symbolic fitted state against the exhaustive k-nearest max-min rule (exp uninterpreted)",
-         "n<=4, k<=2 (quick) / n<=5, k<=3 (thorough)", "4 C14"),
+         "n<=4, k<=2 (quick) / n<=5, k<=3 (thorough); also with samples standing for permuted rows of a larger table (n<=3, k<=2 / n<=4, k<=3)", "4 C14"),
  "C16": ("bounded symbolic execution (z3) of the k-selection loops with the criterion replaced by a nondeterministic stub (over-approximates every data set)",
          "max_k<=5 (quick) / <=8 (thorough), all min_k", "4 C16"),
  "C06": ("symbolic execution (z3, non-linear real arithmetic + uninterpreted log/exp) of all 47 metric bodies, reached through the registry and through the model option, against an independent table of closed forms; z3 string query for registry = whitelist",
